@@ -766,8 +766,15 @@ impl<'a> Interp<'a> {
         if let Some(d) = &declared {
             let has_algo = d.split_whitespace().any(|h| h.starts_with(&format!("{}-", algo)));
             if !has_algo {
-                // a digest of another algorithm than the writer computes: property text is silent
-                integ_ambiguous = true;
+                // a digest of another algorithm than the writer computes. If it is a true digest of the data the
+                // property text is silent (the library cannot verify it and rejects; accepting would be as correct);
+                // if it is not a digest of the data, the data does not satisfy the declaration: must be rejected
+                let true_digest = d.split_whitespace().any(|h| h.split_once('-').map(|(a, _)| hash::sri(a, wdata) == h).unwrap_or(false));
+                if true_digest {
+                    integ_ambiguous = true;
+                } else {
+                    integ_ok = false;
+                }
             } else {
                 integ_ok = d.split_whitespace().any(|h| h == computed);
             }
@@ -1324,7 +1331,11 @@ impl<'a> Interp<'a> {
             _ => Some(data.len() as u64),
         };
         let integ_ok = declared.as_ref().map(|d| d.split_whitespace().any(|h| h == computed)).unwrap_or(true);
-        let integ_amb = declared.as_ref().map(|d| !d.split_whitespace().any(|h| h.starts_with(&format!("{}-", algo)))).unwrap_or(false);
+        let no_hash_of_algo = declared.as_ref().map(|d| !d.split_whitespace().any(|h| h.starts_with(&format!("{}-", algo)))).unwrap_or(false);
+        // another algorithm's digest: silent if it is a true digest of the target, a mismatch otherwise
+        let other_true = declared.as_ref().map(|d| d.split_whitespace().any(|h| h.split_once('-').map(|(a, _)| hash::sri(a, &data) == h).unwrap_or(false))).unwrap_or(false);
+        let integ_amb = no_hash_of_algo && other_true;
+        let integ_ok = if no_hash_of_algo && !other_true { false } else { integ_ok };
         let size_ok = declared_size.map(|s| s == data.len() as u64).unwrap_or(true);
         let is_ok = r["r"] == "ok";
         if integ_amb {
